@@ -88,6 +88,26 @@ def concretise_c05(st, seed, iid):
     else:
         x0 = xs + rng.normal(size=n) * 2.0
     npt = {"n+1": n + 1, "mid": n + 1 + max(1, n // 2), "2n+1": 2 * n + 1}[st["nptclass"]]
+    if st.get("special") == "solution_on_init_grid":
+        # the solution is the point the default initialisation evaluates along coordinate i: x0 + rhobeg*e_i, rhobeg = 0.1*max(|x0|_inf, 1)
+        # (boxes here keep every coordinate free and at least 0.8 > rhobeg wide on each side); b is computed from that very point, so the residual is 0 there
+        x0 = np.where(np.abs(x0) < 0.25, 0.5, x0)
+        if lo is not None:
+            lo, hi = x0 - rng.uniform(0.8, 2.0, size=n), x0 + rng.uniform(0.8, 2.0, size=n)
+        i = int(rng.integers(0, n))
+        xs = x0.copy()
+        xs[i] = x0[i] + 0.1 * max(float(np.max(np.abs(x0))), 1.0)
+        b = A @ xs
+        fstar = 0.0
+    elif st.get("special") == "tiny_sensitivities":
+        sc = 1e6
+        A = A * 1e-8
+        xs, x0 = xs * sc, x0 * sc
+        if lo is not None:
+            lo, hi = lo * sc, hi * sc
+        b = A @ xs - r * 1e-4
+        # optimality at xs: A'r = (multiplier pattern) is preserved by scaling r; f* = |r|^2
+        fstar = float((r * 1e-4) @ (r * 1e-4))
     inst = dict(id=iid, seed=seed, n=n, m=m, prob="explicit", explicit=dict(A=A.tolist(), b=b.tolist(), x0=x0.tolist(), lo=None if lo is None else lo.tolist(),
                                                                             hi=None if hi is None else hi.tolist()),
                 npt=npt, fstar=fstar, opttol=1e-6, pattern=st, timeout=120.0, maxfun=min(100 * (n + 1), 1000), rhoend=1e-8)
@@ -173,6 +193,10 @@ def concretise_c06(st, seed, iid):
     inst = dict(id=iid, seed=seed, n=n, m=m, prob="explicit", explicit=dict(A=A.tolist(), b=b.tolist(), x0=x0.tolist(), lo=None if lo is None else lo.tolist(),
                                                                             hi=None if hi is None else hi.tolist()),
                 reg=st["reg"], lam=lam, args=bool(st["args"]), fstar=Fstar, opttol=1e-3, pattern=st, timeout=600.0, maxfun_default=min(100 * (n + 1), 1000), rhoend=1e-8)
+    if st.get("special") == "hard_restarts":
+        inst["user_params"] = {"restarts.use_restarts": True, "restarts.use_soft_restarts": False, "restarts.max_unsuccessful_restarts": 2,
+                               "restarts.hard.use_old_rk": bool(rng.random() < 0.5)}
+        inst.update(restarts="hard" if inst["user_params"]["restarts.hard.use_old_rk"] else "hardnew", maxunsucc=2)
     return inst
 
 
